@@ -31,7 +31,7 @@ def main():
                 'text': p.get('level_text', 'Every obligation generated from the contracts woven into the real (macro-expanded) functions is discharged by Verus for all inputs; F-run: representable result => no panic and exact value; D-run: if the call returns, the result was representable and exact.'),
                 'design_ref': p.get('design_ref', 'DESIGN.md section 7'),
             },
-            'level_note': p.get('level_note', 'Trusted: Verus/Z3, rustc macro expansion, extraction rules R1-R13, assume_specification entries for std methods (listed in evidence), inputs satisfy valid().'),
+            'level_note': p.get('level_note', 'Trusted: Verus/Z3, rustc macro expansion, extraction rules of DESIGN.md section 3 (R1-R62), assume_specification entries for std methods (listed in evidence), inputs satisfy valid().'),
             'technique': p.get('technique', 'contract-based deductive verification (Verus) of the macro-expanded real code, contracts woven mechanically'),
         })
     na = []
